@@ -62,6 +62,11 @@ CHECKS = {
             "a wrapper obeying the session rules, and per-command timeout/dialogs equal to the matching rule chain of generated deploy rulebooks; CliDeployerJob.parse_result is driven "
             "with a harness driver to check that what it shows is what it sends.",
             "Trusted: R7 (vf/ref/deploy.py), the wrapper rule table. Trees with duplicate sibling rows are outside the stated domain (counted, not judged).", "4/C09"),
+    "C11": ("reference-model monitor: independent reader of the emitted VLAN commands folds them over the old set (set simulator) on real patches from the shipped rulebooks",
+            "For every ordered pair of subsets of a small universe and every splitting of each set over config lines, the real _diff_and_patch with the shipped huawei/cisco/nexus "
+            "rulebooks produces commands that an independent reader interprets as add/remove/remove-all/none; folded over the old set they must yield the new set and never drop a "
+            "VLAN common to both, not even transiently; collapse/expand helpers must round-trip (also chunked).",
+            "Trusted: the command reader and range parsers in vf/props/c11.py (device semantics listed in assumptions).", "4/C11"),
     "C12": ("offline history checker (conservation / exactly-once / payload identity / termination) over recorded pool histories under a parameter grid and sys.monitoring delay injection",
             "Each pool run executes the real Parallel.irun/run with real forked workers in its own subprocess; submit/start/done/reap/deliver/end events are "
             "logged through an O_APPEND log and checked offline: every submitted id delivered exactly once with the value (or failure) its task produced, "
